@@ -113,7 +113,7 @@ def gen_cases(chk):
         for which in ("likelihood", "prior", "prior_uh", "single"):
             for pool in ("none", "fake"):
                 for vm, fkind in (("auto", "vec"), ("auto", "scalar"), ("force_true", "vec"), ("force_false", "vec"),
-                                  ("auto", "arr1"), ("auto", "approx")):
+                                  ("auto", "arr1"), ("auto", "approx"), ("auto", "vecinf"), ("auto", "scalarinf")):
                     for k in (0, 1, 3, n + 1):
                         for unit in ((False, True) if which != "single" else (False,)):
                             if chk.tier == "quick" and rng.random() < 0.5:
@@ -162,9 +162,10 @@ def direct_predicate(c, r):
         return None
     if "error" in r:
         return f"raised {r['error']}"
-    if r["out"] != r["ref"]:
+    same = lambda a, b: len(a) == len(b) and all((x == y) or (x != x and y != y) for x, y in zip(a, b))
+    if not same(r["out"], r["ref"]):
         return f"batch result {r['out']} != pointwise {r['ref']}"
-    if "out2" in r and r["out2"] != r["ref2"]:
+    if "out2" in r and not same(r["out2"], r["ref2"]):
         return f"batch result on the re-used buffer {r['out2']} != pointwise {r['ref2']} (the buffer was refilled in place)"
     if c["kind"] == "model" and c["which"] in ("likelihood", "single") and r["delta"] != c["n"]:
         return f"likelihood_evaluations grew by {r['delta']} for a batch of {c['n']}"
